@@ -28,7 +28,12 @@ REPO = os.environ.get('VP_REPO', '/repo')
 BUILD = os.path.join(VERIF, 'build')
 sys.path.insert(0, VERIF)
 
-DEFAULT_CHECKS = ['--bounds-check', '--pointer-check', '--pointer-overflow-check',
+# --pointer-overflow-check is NOT in the default set: CBMC 6 turns a failed check into an assumption,
+# so a (non-reproducible, C-level-UB-only) "pointer outside object bounds" on an intermediate
+# pointer such as `buf + 16 - filled` in beltMACStepA makes every later property UNKNOWN.
+# Obligations that want it pass checks=DEFAULT_CHECKS + ['--pointer-overflow-check'];
+# its failures are then recorded as ub_notes, never as VIOLATION.
+DEFAULT_CHECKS = ['--bounds-check', '--pointer-check',
                   '--undefined-shift-check', '--signed-overflow-check', '--div-by-zero-check']
 
 # ---------------------------------------------------------------- obligations
@@ -45,8 +50,8 @@ class Ob(dict):
                     unwind=None, unwindset={}, no_uwa=False,
                     checks=None, backend='cadical', timeout=300, mem_gb=12,
                     tiers=('quick', 'thorough'), bound='', funcs=[], stubs=[], shape=[],
-                    replay='native', kind='cbmc', run=None, cbmc_extra=[], object_bits=None,
-                    malloc_may_fail=False, nowitness=False)
+                    replay='native', kind='cbmc', run=None, cbmc_extra=[], object_bits=11, unwind_rules=[],
+                    malloc_may_fail=False, nowitness=False, instances=[])
     def __init__(self, **kw):
         d = dict(Ob.DEFAULTS); d.update(kw)
         super().__init__(d)
@@ -222,8 +227,17 @@ def cbmc_cmd(ob, gb, extra=(), backend=None):
            '--verbosity', '6']
     cmd += (ob.checks if ob.checks is not None else DEFAULT_CHECKS)
     if ob.unwind is not None: cmd += ['--unwind', str(ob.unwind)]
-    if ob.unwindset:
-        cmd += ['--unwindset', ','.join('%s:%d' % kv for kv in ob.unwindset.items())]
+    uws = dict(ob.unwindset)
+    if ob.unwind_rules:
+        # per-loop bounds by rule: loop ids come from `cbmc --show-loops` on the linked binary
+        r = sh(['cbmc', gb, '--show-loops'], timeout=120)
+        for lid in re.findall(r'^Loop ([^\s:]+):', r['out'], re.M):
+            if lid in uws: continue
+            for rx, k in ob.unwind_rules:
+                if re.search(rx, lid):
+                    uws[lid] = k; break
+    if uws:
+        cmd += ['--unwindset', ','.join('%s:%d' % kv for kv in sorted(uws.items()))]
     if not ob.malloc_may_fail: cmd += ['--no-malloc-may-fail']
     else: cmd += ['--malloc-may-fail', '--malloc-fail-null']
     if ob.object_bits: cmd += ['--object-bits', str(ob.object_bits)]
@@ -357,6 +371,113 @@ def native_replay(ob, init_c, workdir):
 
 # ---------------------------------------------------------------- running one obligation
 
+CPU_SEM = None   # threading.Semaphore limiting concurrent solver processes
+
+def check_entry(ob, gb, entry, workdir, tier):
+    """run cbmc on one entry point of a linked goto binary; returns a result dict (verdict etc.)"""
+    res = dict(verdict=None, detail='', queries=0, solver_s=0.0, failed=[], witness=None, replay=None, entry=entry)
+    eob = Ob(**dict(ob)); eob['entry'] = entry
+    bes = [ob.backend] if isinstance(ob.backend, str) else list(ob.backend)
+    with CPU_SEM:
+        if len(bes) == 1:
+            r = sh(cbmc_cmd(eob, gb, backend=bes[0]), timeout=ob.timeout, mem_gb=ob.mem_gb, env=shim_env(ob, bes[0]))
+            be = bes[0]
+        else:
+            i, r = race([(cbmc_cmd(eob, gb, backend=b), shim_env(ob, b)) for b in bes], ob.timeout, ob.mem_gb)
+            be = bes[i]
+    res['backend'] = be
+    res['queries'] += 1; res['solver_s'] += r['wall']
+    out = r['out']
+    m = re.search(r'(\d+) variables, (\d+) clauses', out)
+    if m: res['vars'] = int(m.group(1)); res['clauses'] = int(m.group(2))
+    if r['timeout']:
+        res.update(verdict='UNDECIDED', detail='timeout %ds' % ob.timeout); return res
+    if '(error' in out or '(error' in r['err']:
+        res.update(verdict='UNDECIDED', detail='solver error line'); return res
+    props = RES_RE.findall(out)
+    if not props or ('VERIFICATION SUCCESSFUL' not in out and 'VERIFICATION FAILED' not in out):
+        low = (out + r['err']).lower()
+        if 'out of memory' in low or 'bad_alloc' in low or r['rc'] in (-9, -6, 137, 134):
+            res.update(verdict='UNDECIDED', detail='memory cap %sG rc=%s' % (ob.mem_gb, r['rc']))
+        else:
+            res.update(verdict='BROKEN', detail='cbmc rc=%s: %s' % (r['rc'], (out[-1200:] + r['err'][-1200:])))
+        return res
+    res['properties'] = len(props)
+    wit = [p for p in props if 'VP_WITNESS' in p[1]]
+    res['witness'] = bool(wit) and all(p[2] == 'FAILURE' for p in wit)
+    failed = [p for p in props if p[2] != 'SUCCESS' and 'VP_WITNESS' not in p[1]]
+    # forming an out-of-object pointer without dereferencing it is C-level UB that no native run
+    # can confirm: recorded as ub_notes, never as VIOLATION (a dereference has its own property)
+    ubn = [p for p in failed if 'pointer arithmetic:' in p[1] and p[2] == 'FAILURE']
+    if ubn: res['ub_notes'] = ['%s %s' % (p[0], p[1][:160]) for p in ubn[:6]]
+    failed = [p for p in failed if p not in ubn]
+    uw = [p for p in failed if 'unwinding assertion' in p[1]]
+    real = [p for p in failed if 'unwinding assertion' not in p[1] and p[2] == 'FAILURE']
+    res['failed'] = [(p[0], p[1]) for p in failed]
+    if not ob.nowitness and not res['witness']:
+        res.update(verdict='BROKEN', detail='reachability witness did not fire (vacuous harness)')
+        return res
+    if not real:
+        if uw:
+            res.update(verdict='UNDECIDED', detail='unwinding assertion failed: ' + '; '.join(p[0] for p in uw[:4]))
+        elif failed:
+            res.update(verdict='UNDECIDED', detail='non-success status: ' + '; '.join(p[0] + ' ' + p[2] for p in failed[:4]))
+        else:
+            res.update(verdict='HOLDS')
+        return res
+    # candidate violation: obtain the solver's input assignment and replay it
+    pid, pdesc, _ = real[0]
+    with CPU_SEM:
+        r2 = sh(cbmc_cmd(eob, gb, ['--property', pid, '--trace', '--json-ui'], backend=be), timeout=max(ob.timeout, 300) * 2,
+                mem_gb=ob.mem_gb, env=shim_env(ob, be))
+    res['queries'] += 1; res['solver_s'] += r2['wall']
+    init_c = None
+    try:
+        js = json.loads(r2['out'])
+        for e in js:
+            if 'result' in e:
+                for pr in e['result']:
+                    if pr.get('status') == 'FAILURE' and 'trace' in pr and pr.get('property') == pid:
+                        v = extract_input(pr['trace'], entry)
+                        if v is not None: init_c = val_to_c(v)
+    except Exception as ex:
+        res['detail'] += ' trace parse error: %r' % ex
+    tag = ob.name if entry == ob.entry else ob.name + '.' + entry
+    rp = dict(obligation=ob.name, property=pid, description=pdesc, harness=ob.harness,
+              entry=entry, init=init_c, module=ob.get('module'), tier=tier)
+    os.makedirs(os.path.join(VERIF, 'replay'), exist_ok=True)
+    rpath = os.path.join(VERIF, 'replay', tag + '.json')
+    with open(rpath, 'w') as f: json.dump(rp, f, indent=1)
+    res['replay'] = rpath
+    res['cex_property'] = pid; res['cex_desc'] = pdesc
+    res['all_failed'] = [(p[0], p[1]) for p in real]
+    if init_c is None:
+        res.update(verdict='UNCONFIRMED', detail='no input assignment extracted from trace'); return res
+    res['cex_input'] = init_c if len(init_c) < 4000 else init_c[:4000] + '...'
+    if ob.replay == 'none':
+        res.update(verdict='VIOLATION', detail='solver counterexample (no native replay for this obligation: %s)' % ob.get('noreplay_reason', ''))
+        return res
+    rwd = os.path.join(workdir, 'replay-' + entry); os.makedirs(rwd, exist_ok=True)
+    with CPU_SEM:
+        st, txt = native_replay(eob, init_c, rwd)
+    res['replay_status'] = st; res['replay_out'] = txt[-600:]
+    if st == 'reproduced':
+        res.update(verdict='VIOLATION', detail='%s: %s' % (pid, pdesc))
+    else:
+        res.update(verdict='UNCONFIRMED', detail='%s: %s; native replay: %s %s' % (pid, pdesc, st, txt[-300:]))
+    return res
+
+def gen_instances(ob, workdir):
+    """ob.instances = [(entry_name, 'C argument list')]: entry points that call the harness body
+    vp_body(...) with CONCRETE lengths (constants propagate through symbolic execution, so no
+    symbolic-size memory operation is left); the data stay symbolic"""
+    path = os.path.join(workdir, 'inst_' + os.path.basename(ob.harness))
+    with open(path, 'w') as f:
+        f.write('#include "%s"\n' % os.path.join(VERIF, ob.harness))
+        for name, args in ob.instances:
+            f.write('void %s(void) { VP_INPUT(); vp_body(&in, %s); }\n' % (name, args))
+    return path
+
 def run_ob(ob, tier, keep=False):
     t0 = time.time()
     res = dict(name=ob.name, verdict=None, bound=ob.bound, backend=ob.backend, queries=0,
@@ -366,95 +487,37 @@ def run_ob(ob, tier, keep=False):
     os.makedirs(workdir, exist_ok=True)
     try:
         if ob.kind == 'custom':
-            r = ob.run(ob, tier, workdir)
+            with CPU_SEM:
+                r = ob.run(ob, tier, workdir)
             res.update(r)
             return res
-        gb, err = build_ob(ob, workdir)
+        bob = ob
+        if ob.instances:
+            bob = Ob(**dict(ob)); bob['harness'] = os.path.relpath(gen_instances(ob, workdir), VERIF)
+        with CPU_SEM:
+            gb, err = build_ob(bob, workdir)
         if err:
             res.update(verdict='BROKEN', detail=err); return res
-        bes = [ob.backend] if isinstance(ob.backend, str) else list(ob.backend)
-        if len(bes) == 1:
-            r = sh(cbmc_cmd(ob, gb, backend=bes[0]), timeout=ob.timeout, mem_gb=ob.mem_gb, env=shim_env(ob, bes[0]))
-            be = bes[0]
-        else:
-            i, r = race([(cbmc_cmd(ob, gb, backend=b), shim_env(ob, b)) for b in bes], ob.timeout, ob.mem_gb)
-            be = bes[i]
-        res['backend'] = be
-        res['queries'] += 1; res['solver_s'] += r['wall']
-        out = r['out']
-        m = re.search(r'(\d+) variables, (\d+) clauses', out)
-        if m: res['vars'] = int(m.group(1)); res['clauses'] = int(m.group(2))
-        if r['timeout']:
-            res.update(verdict='UNDECIDED', detail='timeout %ds' % ob.timeout); return res
-        if '(error' in out or '(error' in r['err']:
-            res.update(verdict='UNDECIDED', detail='solver error line'); return res
-        props = RES_RE.findall(out)
-        if not props or ('VERIFICATION SUCCESSFUL' not in out and 'VERIFICATION FAILED' not in out):
-            low = (out + r['err']).lower()
-            if 'out of memory' in low or 'bad_alloc' in low or r['rc'] in (-9, -6, 137, 134):
-                res.update(verdict='UNDECIDED', detail='memory cap %sG rc=%s' % (ob.mem_gb, r['rc']))
-            else:
-                res.update(verdict='BROKEN', detail='cbmc rc=%s: %s' % (r['rc'], (out[-1200:] + r['err'][-1200:])))
+        if not ob.instances:
+            res.update(check_entry(bob, gb, ob.entry, workdir, tier))
             return res
-        res['properties'] = len(props)
-        wit = [p for p in props if 'VP_WITNESS' in p[1]]
-        res['witness'] = bool(wit) and all(p[2] == 'FAILURE' for p in wit)
-        failed = [p for p in props if p[2] != 'SUCCESS' and 'VP_WITNESS' not in p[1]]
-        uw = [p for p in failed if 'unwinding assertion' in p[1]]
-        # forming an out-of-object pointer without dereferencing it is C-level UB that no native run
-        # can confirm: recorded as ub_notes, never as VIOLATION (a dereference has its own property)
-        ubn = [p for p in failed if 'pointer arithmetic:' in p[1] and p[2] == 'FAILURE']
-        if ubn: res['ub_notes'] = ['%s %s' % (p[0], p[1][:160]) for p in ubn[:6]]
-        failed = [p for p in failed if p not in ubn]
-        real = [p for p in failed if 'unwinding assertion' not in p[1] and p[2] == 'FAILURE']
-        res['failed'] = [(p[0], p[1]) for p in failed]
-        if not ob.nowitness and not res['witness']:
-            res.update(verdict='BROKEN', detail='reachability witness did not fire (vacuous harness)')
-            return res
-        if not real:
-            if uw:
-                res.update(verdict='UNDECIDED', detail='unwinding assertion failed: ' + '; '.join(p[0] for p in uw[:4]))
-            elif failed:
-                res.update(verdict='UNDECIDED', detail='non-success status: ' + '; '.join(p[0] + ' ' + p[2] for p in failed[:4]))
-            else:
-                res.update(verdict='HOLDS')
-            return res
-        # candidate violation: obtain the solver's input assignment and replay it
-        pid, pdesc, _ = real[0]
-        r2 = sh(cbmc_cmd(ob, gb, ['--property', pid, '--trace', '--json-ui'], backend=be), timeout=max(ob.timeout, 300) * 2,
-                mem_gb=ob.mem_gb, env=shim_env(ob, be))
-        res['queries'] += 1; res['solver_s'] += r2['wall']
-        init_c = None
-        try:
-            js = json.loads(r2['out'])
-            for e in js:
-                if 'result' in e:
-                    for pr in e['result']:
-                        if pr.get('status') == 'FAILURE' and 'trace' in pr and pr.get('property') == pid:
-                            v = extract_input(pr['trace'], ob.entry)
-                            if v is not None: init_c = val_to_c(v)
-        except Exception as ex:
-            res['detail'] += ' trace parse error: %r' % ex
-        rp = dict(obligation=ob.name, property=pid, description=pdesc, harness=ob.harness,
-                  entry=ob.entry, init=init_c, module=ob.get('module'), tier=tier)
-        os.makedirs(os.path.join(VERIF, 'replay'), exist_ok=True)
-        rpath = os.path.join(VERIF, 'replay', ob.name + '.json')
-        with open(rpath, 'w') as f: json.dump(rp, f, indent=1)
-        res['replay'] = rpath
-        res['cex_property'] = pid; res['cex_desc'] = pdesc
-        res['all_failed'] = [(p[0], p[1]) for p in real]
-        if init_c is None:
-            res.update(verdict='UNCONFIRMED', detail='no input assignment extracted from trace'); return res
-        res['cex_input'] = init_c if len(init_c) < 4000 else init_c[:4000] + '...'
-        if ob.replay == 'none':
-            res.update(verdict='VIOLATION', detail='solver counterexample (no native replay for this obligation: %s)' % ob.get('noreplay_reason', ''))
-            return res
-        st, txt = native_replay(ob, init_c, workdir)
-        res['replay_status'] = st; res['replay_out'] = txt[-600:]
-        if st == 'reproduced':
-            res.update(verdict='VIOLATION', detail='%s: %s' % (pid, pdesc))
-        else:
-            res.update(verdict='UNCONFIRMED', detail='%s: %s; native replay: %s %s' % (pid, pdesc, st, txt[-300:]))
+        subs = []
+        with ThreadPoolExecutor(max_workers=16) as ex:
+            for r in ex.map(lambda e: check_entry(bob, gb, e[0], workdir, tier), ob.instances):
+                subs.append(r)
+        res['queries'] = sum(r['queries'] for r in subs); res['solver_s'] = sum(r['solver_s'] for r in subs)
+        res['instances'] = len(subs)
+        res['instances_held'] = sum(r['verdict'] == 'HOLDS' for r in subs)
+        res['witness'] = all(r.get('witness') for r in subs)
+        res['vars'] = max([r.get('vars') or 0 for r in subs] or [0])
+        order = ['VIOLATION', 'BROKEN', 'UNCONFIRMED', 'UNDECIDED', 'HOLDS']
+        worst = sorted(subs, key=lambda r: order.index(r['verdict']))[0]
+        res['verdict'] = worst['verdict']
+        for k in ('replay', 'cex_property', 'cex_desc', 'all_failed', 'cex_input', 'replay_status', 'failed', 'ub_notes'):
+            if worst.get(k): res[k] = worst[k]
+        nb = [r for r in subs if r['verdict'] != 'HOLDS']
+        res['detail'] = ('%d/%d instances hold' % (res['instances_held'], len(subs))) + \
+            ('; first bad: %s %s' % (worst['entry'], worst['detail'][:300]) if nb else '')
         return res
     except Exception as ex:
         import traceback
@@ -492,6 +555,9 @@ def cleanup_build():
             shutil.rmtree(os.path.join(BUILD, d), ignore_errors=True)
 
 def do_replay(path):
+    global CPU_SEM
+    import threading
+    CPU_SEM = threading.Semaphore(16)
     rp = json.load(open(path))
     mod = importlib.import_module('props.' + rp['module'])
     obs = [o for t in (rp.get('tier', 'thorough'), 'quick', 'thorough') for o in mod.obligations(t) if o.name == rp['obligation']]
@@ -502,6 +568,9 @@ def do_replay(path):
     shutil.rmtree(wd, ignore_errors=True); os.makedirs(wd)
     if ob.kind == 'custom':
         return ob.run(ob, 'replay', wd, replay=rp)
+    if ob.instances:
+        ob = Ob(**dict(ob)); ob['harness'] = os.path.relpath(gen_instances(ob, wd), VERIF)
+    ob['entry'] = rp.get('entry', ob.entry)
     st, txt = native_replay(ob, rp['init'], wd)
     print('replay of %s (%s): %s' % (ob.name, rp['description'], st)); print(txt)
     shutil.rmtree(wd, ignore_errors=True)
@@ -535,7 +604,10 @@ def main():
     obs.sort(key=lambda o: -o.timeout)
     known = load_known()
     results = []
-    with ThreadPoolExecutor(max_workers=a.jobs) as ex:
+    global CPU_SEM
+    import threading
+    CPU_SEM = threading.Semaphore(a.jobs)
+    with ThreadPoolExecutor(max_workers=max(a.jobs, 48)) as ex:
         futs = {ex.submit(run_ob, o, a.tier, a.keep): o for o in obs}
         for f in as_completed(futs):
             r = f.result(); results.append(r)
